@@ -160,9 +160,11 @@ fn skip_until_next_comma(input: ParseStream) -> proc_macro2::TokenStream {
             let mut stuff = quote!();
             let mut rest = *cursor;
             while let Some((tt, next)) = rest.token_tree() {
-                if let Some((TokenTree::Punct(punct), _)) = next.token_tree() {
+                // stop in front of the comma, also when it directly follows the key (a flag
+                // such as `transparent`), so that the attribute behind it is not swallowed
+                if let TokenTree::Punct(punct) = &tt {
                     if punct.as_char() == ',' {
-                        return Ok((stuff, next));
+                        return Ok((stuff, rest));
                     }
                 }
 
